@@ -67,6 +67,10 @@ MoreScenarios ==
   IF CurveName = "bls12_381_g1"
   THEN { Sc("from_coords", <<>>, <<X, SqrtM(Rhs(X), C.p)>>, <<>>, <<>>) : X \in OffSubgroupXs }
        \cup { Sc("in_subgroup", <<a>>, <<>>, <<>>, <<>>) : a \in {1, 2, -1, 1000} }
+  ELSE IF CurveName = "jubjub"
+  \* cofactor 8: the point of order 2, and its sum with the generator (order 2r)
+  THEN LET T2 == Pt(Zero, Sub(C.p, One))  Q == PAdd(C, T2, C.g) IN
+       { Sc("from_coords", <<>>, <<T2.x, T2.y>>, <<>>, <<>>), Sc("from_coords", <<>>, <<Q.x, Q.y>>, <<>>, <<>>) }
   ELSE {}
 
 VARIABLE sc
